@@ -6,6 +6,8 @@ CONTRACT_MODULES = [
     "contracts.bptc",
     "contracts.trellis",
     "contracts.rs",
+    "contracts.vbptc",
+    "contracts.pdu_csbk",
 ]
 
 TRUSTED_BASE = [
